@@ -149,13 +149,16 @@ def run(tier, seed, build):
             events.append(nested_event(len(events), pd, q, m + inc[0], n + inc[1], (-1.0, 0.5, 0.25)))
         rep.nontrivial(("nested", model, m, n))
     # (b) eigenvalue sequences against the closed forms
-    for (a, b, dirs, t, kind, N, model) in sequences(tier, rng):
+    for ks, (a, b, dirs, t, kind, N, model) in enumerate(sequences(tier, rng)):
         orders = orders_for(a, b, tier)
         vals = []
+        # every second sequence with force_orthotropic_laminate on: these laminates are specially orthotropic already,
+        # so the switch must change nothing
+        flag = dict(ortho=True) if ks % 2 == 1 else {}
         for (m, n) in orders:
-            vals.append(first_eigs(pd_for(model, a, b, m, n, dirs, t), N, kind))
+            vals.append(first_eigs(dict(pd_for(model, a, b, m, n, dirs, t), **flag), N, kind))
         eps = cal[case_key(a, b, dirs, kind, N)]["eps"]
-        events.append(dict(ev="seq", id=len(events), pd=pd_for(model, a, b, orders[-1][0], orders[-1][1], dirs, t),
+        events.append(dict(ev="seq", id=len(events), pd=dict(pd_for(model, a, b, orders[-1][0], orders[-1][1], dirs, t), **flag),
                            kind=kind, N=[rat(Fraction(x)) for x in N], orders=[list(o) for o in orders],
                            vals=[dyadic(v) for v in vals], eps=rat(Fraction(eps).limit_denominator(10 ** 12))))
         rep.nontrivial(("seq", str(a), str(b), repr(dirs), kind, N))
